@@ -159,9 +159,9 @@ def run(ctx):
                 check_valid(ctx, s, T, exp, meta, got)
             else:
                 nmal += 1
-                if "exc" not in got:
+                if "exc" not in got or got.get("again") == "accepted":
                     ctx.violation({"kind": "parse", "clause": "MalformedMustBeRejected", "malformation": kind[4:],
-                                   "string": s, "table": T, "got": got.get("str")})
+                                   "string": s, "table": T, "got": got.get("str"), "asked_again": "exc" in got})
     edited_leg(ctx, rng, uni, [x[0] for x in items if x[2] == "valid" and x[1] == "public"], quick)
     ctx.count("valid strings", nvalid)
     ctx.count("malformed strings", nmal)
@@ -213,6 +213,13 @@ def edited_leg(ctx, rng, uni, valid_strings, quick):
     for i in range(n):
         s = rng.choice(base)
         strs.add(edits(rng, s, rng.choice([0, 1, 1, 2, 3])))
+    # character soup over the notation's alphabet and real fragments: the specification's own lexer (PTLex) cuts the
+    # characters, so strings that are not edits of anything valid are decided too (most are certainly outside)
+    frags = ["H", "He", "O", "Fe", "Na", "Cl", "D", "T", "Si", "U", "n", "h", "X", "Uuo", "2", "3", "10", "0.5", ".5", "1.", "1e3", "0", ".",
+             "(", ")", "[2]", "[56]", "[16]", "[", "]", "{2+}", "{-}", "{+}", "{3+}", "{", "}", " ", "+", " + ", "@1.5", "@2n", "@.5i",
+             "@0.9", "@7.", "@", "x", "-", ",", "*", "_", "2+", "1/2"]
+    for i in range(n // 4):
+        strs.add("".join(rng.choice(frags) for _ in range(rng.randint(1, 7))))
     import re
     # outside this leg: prefix routes and mixtures (':', '%', '/'), blanks inside [..] or {..} tags and a leading blank
     # (the documentation is silent about them), and a unit after a number (a mixture quantity: "0.5L0.5Lu" is half a
@@ -249,6 +256,12 @@ def edited_leg(ctx, rng, uni, valid_strings, quick):
     header = {"symz": dict((v[1], z) for z, v in eb.items() if z >= 1),
               "isos": dict((str(z), isos.get(z, [])) for z in eb), "ions": dict((str(z), list(v[2])) for z, v in eb.items())}
     rejected = tracecheck.validate(ctx, "Trace_Parse", header, events, name="Trace_Parse")
+    # the harness's own lexer only filters inputs (positive_counts above); keep it in step with the specification's
+    from .. import lextest
+    sample = strs[::max(1, len(strs) // 1500)]
+    r, bad = lextest.compare(sample)
+    ctx.tlc("LexTest (PTLex against the harness's filter lexer)", r)
+    ctx.cov["lexer_differential"] = {"strings": len(sample), "disagreements": len(bad), "examples": [b[0] for b in bad[:5]]}
     bys = dict((it["id"], it["s"]) for it in items)
     byev = dict((e["id"], e) for e in events)
     ctx.count("edited strings (code -> spec)", len(events))
